@@ -168,16 +168,37 @@ class Gen:
     def klass(self, depth, name=None, n_methods=None):
         r, lang = self.r, self.lang
         name = name or r.choice(CLASS_NAMES)
+        pre = []
         if lang == "py":
             ckind = "CPlain"
-            head = f"class {name}{r.choice(['', '', '(object)', '(Base)'])}:"
+            if r.random() < 0.2:       # decorators sit above the `class` line: outside the ClassDef line range
+                pre = r.choice([["@decor"], ["@decor", "@other(1,", "       2)"], ["@dataclass(frozen=True)"]])
+            if r.random() < 0.2:       # bases wrapped over several lines: all inside the line range
+                heads = [f"class {name}(", "    Base,", "    Other,", "):"]
+            else:
+                heads = [f"class {name}{r.choice(['', '', '(object)', '(Base)'])}:"]
         else:
-            ckind = r.choices(["CPlain", "CExport", "CAbstract", "CExportAbstract"], [6, 2, 1 if lang == "ts" else 0, 0.5 if lang == "ts" else 0])[0]
+            ckind = r.choices(["CPlain", "CExport", "CExportDefault", "CAbstract", "CExportAbstract"],
+                              [6, 2, 0.7, 1 if lang == "ts" else 0, 0.5 if lang == "ts" else 0])[0]
             if depth > 0:
-                ckind = "CPlain" if ckind in ("CExport",) else ("CAbstract" if ckind == "CExportAbstract" else ckind)
-            pre = {"CPlain": "", "CExport": "export ", "CAbstract": "abstract ", "CExportAbstract": "export abstract "}[ckind]
-            head = f"{pre}class {name}{r.choice(['', '', ' extends Base'])} {{"
-        meta = {"name": name, "ckind": ckind}
+                ckind = "CPlain" if ckind in ("CExport", "CExportDefault") else ("CAbstract" if ckind == "CExportAbstract" else ckind)
+            kw = {"CPlain": "", "CExport": "export ", "CExportDefault": "export default ", "CAbstract": "abstract ", "CExportAbstract": "export abstract "}[ckind]
+            form = r.choices(["one", "ext", "wrap2", "wrap3"], [5, 2, 1.5, 1.5 if lang == "ts" else 0])[0]
+            if form == "one":
+                heads = [f"{kw}class {name} {{"]
+            elif form == "ext":
+                heads = [f"{kw}class {name} extends Base {{"]
+            elif form == "wrap2":
+                heads = [f"{kw}class {name}", "  extends Base {"]
+            else:
+                heads = [f"{kw}class {name}", "  extends BaseView", "  implements Renderable, Disposable {"]
+            if lang == "ts" and r.random() < 0.2:
+                deco = r.choice([["@Injectable()"], ["@Component({ selector: 'app-x',", "  template: '<p></p>' })"]])
+                if ckind in ("CExport", "CExportDefault", "CExportAbstract"):
+                    pre = deco       # the decorator belongs to the export_statement, not to the class node
+                else:
+                    heads = deco + heads   # the class node starts at its decorator
+        meta = {"name": name, "ckind": ckind, "pre": pre}
         kids = []
         if lang == "py" and r.random() < 0.35:
             kids += self.docstring() if r.random() < 0.6 else [line("LCode", '"""One line."""')]
@@ -187,10 +208,11 @@ class Gen:
         if lang == "py":
             if not any(k[0] == "block" or k[1] in ("LCode",) for k in kids):
                 kids.append(line("LCode", "pass"))
-            return block("class", meta, [head], kids, [])
+            return block("class", meta, heads, kids, [])
         if not kids and r.random() < 0.5:
-            return block("class", meta, [head + "}"], [], [])
-        return block("class", meta, [head], kids, ["}"])
+            heads[-1] = heads[-1] + "}"
+            return block("class", meta, heads, [], [])
+        return block("class", meta, heads, kids, ["}"])
 
     def func(self, depth):
         lang = self.lang
@@ -198,7 +220,10 @@ class Gen:
         if lang == "py":
             return block("func", {}, [f"def helper{self.n}():"], self.body(depth), [])
         if lang == "rs":
-            return block("func", {}, [f"fn helper{self.n}() {{"], self.body(depth, allow_class=False), ["}"])
+            kids = self.body(depth, allow_class=False)
+            if depth < 2 and self.r.random() < 0.5:     # items local to the function body
+                kids = self.rust_items(depth + 1, allow_func=False) + kids
+            return block("func", {"name": f"fn helper{self.n}"}, [f"fn helper{self.n}() {{"], kids, ["}"])
         return block("func", {}, [f"function helper{self.n}() {{"], self.body(depth), ["}"])
 
     # -- Rust items
@@ -230,7 +255,7 @@ class Gen:
         tr = "" if trait is None else ((trait[1] if trait[0] == "simple" else f"{trait[1]}::{trait[2]}") + " for ")
         return block("impl", meta, [f"impl{g} {tr}{target}{ga} {{"], self.members(1), ["}"])
 
-    def rust_items(self, depth):
+    def rust_items(self, depth, allow_func=True):
         r = self.r
         items = []
         names = r.sample(["User", "Account", "DataManager", "Tree", "Node", "Shape", "PathHelper", "Repo"], r.randint(1, 3))
@@ -242,7 +267,7 @@ class Gen:
                 items.append(st)
             for _ in range(r.choice([0, 1, 1, 2, 3])):
                 items.append(self.impl(nm, generics.get(nm, r.random() < 0.2)))
-        if r.random() < 0.2:
+        if allow_func and r.random() < 0.25:
             items.append(self.func(depth))
         r.shuffle(items)
         out = []
@@ -261,8 +286,11 @@ class Gen:
         if lang == "rs":
             top.append(line("LCode", "use std::fmt;"))
             top += self.rust_items(0)
-            for i in range(r.choice([0, 0, 1, 2])):
-                top.append(block("mod", {"name": f"m{i}"}, [f"mod m{i} {{"], self.rust_items(1), ["}"]))
+            for i in range(r.choice([0, 1, 1, 2])):
+                kids = self.rust_items(1)
+                if r.random() < 0.4:
+                    kids.append(block("mod", {"name": "inner"}, [r.choice(["mod inner {", "pub mod inner {"])], self.rust_items(2, allow_func=False), ["}"]))
+                top.append(block("mod", {"name": f"m{i}"}, [r.choice([f"mod m{i} {{", f"pub mod m{i} {{"])], kids, ["}"]))
             return top
         if lang == "py" and r.random() < 0.5:
             top.append(line("LCode", "import os"))
@@ -312,19 +340,21 @@ def render(lang, tree, top_offset=0):
         if kind == "LBlank":
             out.append((kind, "", " " * (ind * depth) if ws_variant else ""))
         else:
-            out.append((kind, text, " " * (ind * depth) + text))
+            out.append((kind, text.strip(), " " * (ind * depth) + text))
 
     def emit(node, depth, owner, path):
         if node[0] == "line":
             put(node[1], node[2], depth, ws_variant=(len(out) % 3 == 0))
             return
         _, role, meta, heads, kids, foots = node
+        for h in meta.get("pre", []):
+            put("LCode", h, depth)
         start = len(out) + 1
         for h in heads:
             put("LCode", h, depth)
         rec = None
         if role == "class":
-            off = {"CPlain": 0, "CExport": 7, "CAbstract": 0, "CExportAbstract": 7}[meta["ckind"]]
+            off = {"CPlain": 0, "CExport": 7, "CExportDefault": 15, "CAbstract": 0, "CExportAbstract": 7}[meta["ckind"]]
             rec = {"name": meta["name"], "ckind": meta["ckind"], "line": start, "col": ind * depth + off, "len": 0, "members": []}
             flat["classes"].append(rec)
         elif role == "struct":
@@ -336,7 +366,7 @@ def render(lang, tree, top_offset=0):
         elif role == "member" and owner is not None:
             owner["members"].append({"kind": meta["kind"], "name": meta["name"]})
         sub_owner = rec if role in ("class", "impl") else None
-        sub_path = path + [meta["name"]] if role == "mod" else path
+        sub_path = path + [meta["name"]] if role == "mod" or (role == "func" and "name" in meta) else path
         for k in kids:
             emit(k, depth + 1, sub_owner, sub_path)
         for t in foots:
@@ -385,31 +415,53 @@ def units(lang, flat):
     return out
 
 
-def fallback_defect_free(case) -> bool:
-    """mirror of Model/SrpSpec.v defect_free, used only when the Coq model cannot be evaluated"""
+def mirror_units(case, actual: bool):
+    """Python mirror of the Coq development, used (a) as the oracle over the full stream when the Coq model cannot be
+    built / evaluated and (b) cross-checked against the Coq verdicts on every normal run.
+    actual=False: the documented behaviour (Model/SrpSpec.v);  actual=True: the behaviour claimed for the current tree
+    (Model/Srp.v under Actual/SrpActual.v: the nine listed defects switched on)."""
     lang, flat = case["lang"], case["flat"]
-    kinds = [k for k, _ in flat["lines"]]
-    if lang == "py":
-        return "LStrHash" not in kinds
-    if lang in ("ts", "js"):
-        for c in flat["classes"]:
-            if c["ckind"] in ("CAbstract", "CExportAbstract") or any(m["kind"] in ("MPrivateKw", "MProtectedKw", "MHashPrivate", "MProperty") for m in c["members"]):
-                return False
-            if not all(_is_code(k) for k in kinds[c["line"] - 1:c["line"] - 1 + c["len"]]):
-                return False
-        return True
-    if "LBlockComment" in kinds:
-        return False
-    for i in flat["impls"]:
-        if i["generic"] or (i["trait"] is not None and i["trait"][0] == "simple"):
+    ls = flat["lines"]
+
+    def loc(start, n):
+        seg = ls[start - 1:start - 1 + n]
+        if not actual:
+            return sum(1 for k, _ in seg if _is_code(k))
+        if lang == "py":
+            return sum(1 for _, t in seg if t and not t.startswith("#"))
+        if lang == "rs":
+            return sum(1 for _, t in seg if t and not t.startswith("//"))
+        return n
+
+    def counted(m):
+        if not actual or lang in ("py", "rs"):
+            return _public(m)
+        if m["kind"] == "MField":
             return False
-        if any(s["name"] == i["self"] and s["path"] != i["path"] for s in flat["structs"]):
-            return False
-    return True
+        name = None if m["kind"] == "MHashPrivate" else m["name"]
+        return not (name == "constructor" or (name and name.startswith("_")))
+
+    out = []
+    if lang == "rs":
+        def target(i):
+            if not actual:
+                return i["self"]
+            if i["trait"] is not None and i["trait"][0] == "simple":
+                return i["trait"][1]
+            return "" if i["generic"] else i["self"]
+        for s in flat["structs"]:
+            mine = [i for i in flat["impls"] if target(i) == s["name"] and (actual or i["path"] == s["path"])]
+            out.append({"name": s["name"], "line": s["line"], "col": s["col"], "mc": sum(sum(1 for m in i["members"] if counted(m)) for i in mine),
+                        "loc": loc(s["line"], s["len"]) + sum(loc(i["line"], i["len"]) for i in mine)})
+        return out
+    for c in flat["classes"]:
+        if actual and c["ckind"] in ("CAbstract", "CExportAbstract"):
+            continue
+        out.append({"name": c["name"], "line": c["line"], "col": c["col"], "mc": sum(1 for m in c["members"] if counted(m)), "loc": loc(c["line"], c["len"])})
+    return out
 
 
-def fallback_spec_report(case, sec):
-    """mirror of Model/SrpSpec.v spec_report (documented behaviour) from the generator's ground truth"""
+def mirror_report(case, sec, actual: bool):
     d = cfg_to_dict(sec)["srp"]
     if not d.get("enabled", True):
         return []
@@ -419,7 +471,7 @@ def fallback_spec_report(case, sec):
     ml = own.get("max_loc", d.get("max_loc", 200))
     check, kws = d.get("check_keywords", True), d.get("keywords", DEFAULT_KEYWORDS)
     out = []
-    for u in case["units"]:
+    for u in mirror_units(case, actual):
         issues = []
         if u["mc"] > mm:
             issues.append(f"{u['mc']} methods (max: {mm})")
@@ -694,6 +746,7 @@ def run(tier: str, seed: int, replay: str | None = None) -> int:
             chk.broken.append(f"Model:evaluation of the SRP model failed ({str(e)[:400]})")
             verdicts = [None] * len(cases)
     cands_all = None
+    mirror_bad = []
     for case, impl, ver in zip(cases, impls, verdicts):
         lang = case["lang"]
         slim = {k: case[k] for k in ("id", "lang", "tree", "text", "flat", "units", "via")}
@@ -721,12 +774,18 @@ def run(tier: str, seed: int, replay: str | None = None) -> int:
                 chk.broken.append(f"Harness:generated {lang} file does not parse ({r[0][2][:80]})")
                 continue
             if ver is None:
-                # the model could not be evaluated (the generated layer or the model broke): judge inputs outside the
-                # listed defect classes against the documented behaviour computed from the generator's ground truth
-                if fallback_defect_free(case) and r != fallback_spec_report(case, sec):
-                    chk.violation({"reason": "the Coq model could not be evaluated; on an input outside every listed defect class the implementation "
-                                             "differs from the documented SRP thresholds (fallback oracle)",
-                                   "config": cfg_to_dict(sec), "impl": r, "expected": fallback_spec_report(case, sec), "case": one})
+                # the model could not be built / evaluated (a generated item failed closed, a proof or the model broke):
+                # judge EVERY run against the Python mirror of the documented behaviour; a deviation that the mirror of the
+                # nine listed defects reproduces exactly is a known finding, anything else is a violation with this input
+                want = mirror_report(case, sec, False)
+                if r == want:
+                    continue
+                if r == mirror_report(case, sec, True):
+                    chk.dist("fallback:explained-by-listed-defects")
+                    continue
+                chk.violation({"reason": "the Coq model could not be built or evaluated; the implementation differs from the documented SRP thresholds "
+                                         "on this input and the deviation is not one of the listed defects (Python ground-truth oracle)",
+                               "config": cfg_to_dict(sec), "impl": r, "expected": want, "case": one})
                 continue
             chk.traces_validated += 1
             bits = [bool(b) for b in ver[j]]
@@ -736,6 +795,8 @@ def run(tier: str, seed: int, replay: str | None = None) -> int:
                 continue
             cands_all = cand if cands_all is None else [a and b for a, b in zip(cands_all, cand)]
             chk.dist("verdict:" + ("reported" if r else "clean"))
+            if (spec_ok != (r == mirror_report(case, sec, False))) or (cand[0] != (r == mirror_report(case, sec, True))):
+                mirror_bad.append(case["id"])
             if spec_ok:
                 continue
             info = {"config": cfg_to_dict(sec), "impl": r, "case": one,
@@ -750,6 +811,10 @@ def run(tier: str, seed: int, replay: str | None = None) -> int:
                 info["model_actual_matches_impl"] = cand[0]
                 info["model_ideal_matches_spec"] = ideal_ok
                 chk.violation(info)
+    if mirror_bad:
+        chk.broken.append(f"Harness:the Python mirror (fallback oracle) disagrees with the Coq spec/model verdicts on {len(mirror_bad)} runs, e.g. case {mirror_bad[0]}")
+    else:
+        chk.notes.append("fallback oracle (Python mirror of spec and of the claimed quirk vector) agreed with the Coq verdicts on every run")
     if cands_all is not None and not cands_all[0]:
         alt = [i for i, ok in enumerate(cands_all) if ok]
         if alt:
